@@ -39,6 +39,7 @@ func init() {
 			ruleSKFail(c)
 			ruleALBuf(c)
 			ruleALBump(c)
+			ruleCDPure(c)
 		})
 
 	register("C13",
@@ -62,6 +63,7 @@ func init() {
 			ruleTSWide(c)
 			ruleTSNarrow(c)
 			ruleTSFloor(c)
+			ruleCDPure(c)
 			ruleVarStd(c)
 			ruleOMValid(c)
 		})
@@ -94,6 +96,7 @@ func init() {
 			ruleJS(c)
 			ruleJSWhole(c)
 			ruleJSTotal(c)
+			ruleJSAccept(c)
 			ruleJSTagOptions(c)
 			c.Rule("ER-CHECK", erClauses["ER-CHECK"], 3)
 			schemaT := c.P.NamedType(c.P.Avro, "Schema")
@@ -155,6 +158,7 @@ func init() {
 			ruleOMZero(c)
 			ruleOMValid(c)
 			ruleWAIdx(c)
+			ruleBTWidth(c, true)
 			if enc := findEncoder(c.P); enc.ctor != nil {
 				ruleENCHdr(c, enc.ctor)
 			}
@@ -166,6 +170,7 @@ func init() {
 		func(c *Ctx) {
 			ruleRCRange(c)
 			ruleRCVarint(c)
+			ruleUVFold(c)
 			ruleC17(c)
 			ruleBTWidth(c, true)
 		})
@@ -189,6 +194,7 @@ func init() {
 				c.Check(!rt.nilSrc, fnKey(s.fn)+"/decompress-receiver", c.P.pos(s.decompress.Pos()), "every value flowing into the receiver of decompress is non-nil", "a nil interface flows into the receiver of decompress")
 			}
 			ruleTLDiv(c)
+			ruleUVFold(c)
 			c.Assume = append(c.Assume, "int is 64 bits: int(v) of a decoded int64 preserves the value")
 			c.Note("not decided: termination (a huge count with zero-width items loops for a long time), panics inside compress/flate, snappy, json; recursion depth")
 		})
